@@ -446,7 +446,12 @@ impl<K: StructuralWritable, V: StructuralWritable> Encoder<MapOperation<K, V>>
 struct MessageEncoder<Inner>(Inner);
 
 #[derive(Debug, Default, Clone, Copy)]
-struct MessageDecoder<Inner>(Inner);
+struct MessageDecoder<Inner> {
+    inner: Inner,
+    /// The inner decoder has consumed the header of an operation and is part way through it:
+    /// the front of the buffer is the middle of a frame, not a header.
+    in_operation: bool,
+}
 
 impl<K, V, Inner> Encoder<MapMessage<K, V>> for MessageEncoder<Inner>
 where
@@ -489,7 +494,13 @@ where
     type Error = FrameIoError;
 
     fn decode(&mut self, src: &mut BytesMut) -> Result<Option<Self::Item>, Self::Error> {
-        let MessageDecoder(inner) = self;
+        let MessageDecoder {
+            inner,
+            in_operation,
+        } = self;
+        if *in_operation {
+            return decode_operation(inner, in_operation, src);
+        }
         if src.remaining() < TAG_SIZE + LEN_SIZE {
             src.reserve(TAG_SIZE + LEN_SIZE);
             return Ok(None);
@@ -516,12 +527,34 @@ where
                     MapMessage::Drop(n)
                 }))
             }
-            _ => {
-                let result = inner.decode(src)?;
-                Ok(result.map(Into::into))
-            }
+            _ => decode_operation(inner, in_operation, src),
         }
     }
+}
+
+/// Delegate to the decoder for map operations, keeping track of whether it stopped part way
+/// through a frame (in which case the next call must not interpret the buffer as a header).
+fn decode_operation<K, V, Inner>(
+    inner: &mut Inner,
+    in_operation: &mut bool,
+    src: &mut BytesMut,
+) -> Result<Option<MapMessage<K, V>>, FrameIoError>
+where
+    Inner: Decoder<Item = MapOperation<K, V>, Error = FrameIoError>,
+{
+    let before = src.remaining();
+    let result = inner.decode(src);
+    match &result {
+        Ok(None) => {
+            if src.remaining() != before {
+                *in_operation = true;
+            }
+        }
+        _ => {
+            *in_operation = false;
+        }
+    }
+    Ok(result?.map(Into::into))
 }
 
 #[derive(Debug, Default, Clone, Copy)]
